@@ -9,6 +9,7 @@ mod props;
 mod report;
 mod rng;
 mod rva;
+mod shapes;
 
 use std::collections::BTreeMap;
 
